@@ -366,5 +366,11 @@ def special_values():
     vals = {0, 1, 2, 3, 5, 7, 10, 255, 256, 10 ** 19, 10 ** 19 + 1, 10 ** 20, 10 ** 38, 10 ** 39, 3 ** 40, 3 ** 41, 7 ** 22}
     for k in (7, 8, 15, 16, 31, 32, 33, 63, 64, 65, 95, 96, 127, 128, 129, 191, 192, 193, 255, 256, 257, 319, 320, 321):
         vals |= {(1 << k) - 1, 1 << k, (1 << k) + 1}
+    # repeated 64-bit / 32-bit digit values (a lower digit equal to the top digit) and palindromic digit vectors
+    for d in (1, 5, 0xffffffff, 0x100000000, 0x100000001, (1 << 64) - 1, 1 << 63):
+        for k in (2, 3, 5):
+            vals.add(sum(d << (64 * i) for i in range(k)))
+        vals.add(d | (7 << 64) | (d << 128))
+        vals.add(d | (d << 32 if d < (1 << 32) else 0) | (d << 96 if d < (1 << 32) else d << 128))
     vals |= {(1 << 128) + (1 << 64), (1 << 192) + 1, ((1 << 64) - 1) << 64, ((1 << 64) - 1) << 128, (1 << 128) - (1 << 64), (3 << 126), (1 << 200) - (1 << 100)}
     return sorted(vals)
